@@ -14,11 +14,6 @@ static void do_grow_contract(struct vhm* self);
  * chain loop: the reader holds a pointer to an extension item (or null) that it loaded after this iteration's first state load. */
 static void rd_reset(void); static void rd_chain_havoc(void);
 extern accessor rd_res0; extern _Bool rd_have_state1; extern uint64_t rd_state1_clock, rd_ptr_clock, rd_state_last_clock; extern bstate_t rd_state1; extern _Bool rd_ptr_seen; extern uint64_t rd_ptr_val;
-#ifdef XV_NT
-#define ACC_EQ(a, b) ((a).guard == (b).guard)
-#else
-#define ACC_EQ(a, b) ((a).v == (b).v)
-#endif
 /* grow, INT mode: the loop that waits for the other resizer is cut; it writes nothing */
 extern unsigned gi_bucket_stores, gi_xchg_count, do_grow_calls; extern uint64_t gi_xchg_old;
 #define XV_HAVOC_WAIT (void)0
@@ -41,32 +36,60 @@ extern unsigned lk_cas_ok_count, lk_stores;
 enum { R_NONE = 0, R_CHAIN, R_FREE, R_OTHER };
 int role0[POOL];
 static void havoc_cells(kcell_t* kc, vcell_t* vc, int node, _Bool occupied) {
-#ifdef XV_NT
+  /* node: constant.  Item number `node` owns heap node `node` (node modes) and Value object `node` (managed_ptr modes) */
+#if defined(XV_NODE)
   if (occupied) {
-    /* node: constant */
     struct node* nd = NODE_C(node);
-    nd->data.first = nondet_key(); nd->data.second = nondet_val(); node_retired[node] = 0;
-    *vc = nd; *kc = XV_HASH(nd->data.first);
+#ifdef XV_MANAGED
+    NODE_VAL(nd) = UOBJ_C(node); uobj_retired[node] = 0;
+#else
+    NODE_VAL(nd) = nondet_val();
+#endif
+    node_retired[node] = 0; *vc = nd;
+#ifdef XV_KEYNODE
+    NODE_KEY(nd) = nondet_key(); *kc = XV_HASH(NODE_KEY(nd));
+#else
+    *kc = nondet_kcell();
+#endif
   } else { *vc = node_at(nondet_uint()); *kc = nondet_kcell(); }
+#elif defined(XV_MT)
+  *kc = nondet_kcell();
+  if (occupied) { *vc = UOBJ_C(node); uobj_retired[node] = 0; } else *vc = uobj_at(nondet_uint());
 #else
   *kc = nondet_kcell(); *vc = nondet_val();
 #endif
 }
 static void build_state(int maxchain) {
   XV_ASSUME(NSLOT == bucket_item_count);
-#ifdef XV_NT
+#if defined(XV_MN)
+  in_nt = 4;
+#elif defined(XV_MT)
+  in_nt = 3;
+#elif defined(XV_TN)
+  in_nt = 2;
+#elif defined(XV_NT)
   in_nt = 1;
 #else
   in_nt = 0;
 #endif
-  in_key = nondet_key(); in_gk = nondet_key(); in_value = nondet_val();
+  in_key = nondet_key(); in_gk = nondet_key();
+#ifdef XV_MANAGED
+  in_value = UOBJ_C(NN - 1);        /* the Value object being inserted: not yet in the map */
+#else
+  in_value = nondet_val();
+#endif
   in_mask = nondet_u32(); in_ebc = nondet_u32(); in_ic = nondet_u32(); in_n = nondet_uint();
   XV_ASSUME(in_mask == XV_MASK && in_ebc <= XV_NEB && in_ic <= NSLOT && in_n <= (unsigned)maxchain);
   XV_ASSUME(in_n == 0 || in_ic == NSLOT);
   g_map.data_block = &g_blk; g_map.resize_lock = 0;
   g_blk.mask = XV_MASK; g_blk.bucket_count = XV_MASK + 1; g_blk.extension_bucket_count = in_ebc; g_blk.extension_buckets = g_eb; g_blk.bkts = g_bk;
   g_eb_base = nondet_uptr(); XV_ASSUME(g_eb_base % sizeof(extension_bucket) == 0 && g_eb_base < ((uintptr_t)1 << 62));
-  for (int i = 0; i < NN; ++i) { node_retired[i] = nondet_bool(); NODE_C(i)->data.first = nondet_key(); NODE_C(i)->data.second = nondet_val(); }
+  for (int i = 0; i < NN; ++i) { node_retired[i] = nondet_bool(); uobj_retired[i] = nondet_bool(); NODE_VAL(NODE_C(i)) = nondet_val();
+#ifdef XV_KEYNODE
+    NODE_KEY(NODE_C(i)) = nondet_key();
+#endif
+  }
+  uobj_retired[NN - 1] = 0; uretire_count = 0; last_uretired = 0;
   spec_ignore_retired = 0; retire_count = 0; last_retired = 0; reclaim_of_null = 0; new_count = 0; factory_calls = 0; cb_count = 0; cb_cell = 0; eb_at_ok = 1; xv_threw = 0;
   /* the bucket under test */
   hash_t h = XV_HASH(in_key);
@@ -139,7 +162,7 @@ static struct pre snapshot(void) {
   struct pre s; s.k = lookup(g_B, in_key); s.g = lookup(g_B, in_gk); s.B0 = *g_B; s.size0 = (int)in_ic + (int)in_n;
   in_kpos = s.k.pos; in_gpos = s.g.pos;
   in_collide = 0;
-#ifdef XV_NT
+#ifdef XV_KEYNODE
   { hash_t h = XV_HASH(in_key);
     for (int i = 0; i < NSLOT; ++i) if ((uint32_t)i < in_ic && g_B->key[i] == h && i != s.k.pos) in_collide = 1;
     for (int p = 0; p < POOL; ++p) if (chain0[p] && POOL_ITEM(p)->key == h && !(s.k.found && s.k.cell == POOL_ITEM(p)->value)) in_collide = 1; }
@@ -193,14 +216,16 @@ void h_do_extract(void) {
 #ifdef XV_NT
     XV_CANARY("extract.threw");
 #endif
+#if defined(XV_TN) || defined(XV_MT) || defined(XV_MN)
+    XV_CANARY("extract.threw_guard");
+#endif
     return;
   }
   XV_OBL("vhm.extract.iff_present", r == s.k.found);
   if (r) {
-#ifdef XV_NT
-    XV_OBL("vhm.extract.iff_present", res.guard == s.k.cell && res.guard->data.second == s.k.val && res.guard->data.first == in_key);
-#else
-    XV_OBL("vhm.extract.iff_present", res.v == s.k.val);
+    XV_OBL("vhm.extract.iff_present", ACC_NAMES(res, s.k.cell, s.k.val));
+#ifdef XV_KEYNODE
+    XV_OBL("vhm.extract.iff_present", NODE_KEY(ACC_NODE(res)) == in_key);
 #endif
     check_removed(s, 1);
     if (s.k.pos < NSLOT && in_n > 0) XV_CANARY("extract.array_with_chain");
@@ -213,35 +238,43 @@ void h_do_extract(void) {
   } else {
     check_unchanged(s);
     if (in_ic == 0) XV_CANARY("extract.empty_bucket"); else XV_CANARY("extract.absent");
-#ifdef XV_NT
+#ifdef XV_KEYNODE
     if (in_collide) XV_CANARY("extract.absent_collision");
 #endif
   }
 }
 
 /* erase(key) / extract(key, acc): do_extract inlined (real text), reclaim through the real traits text */
-static void check_retire(struct pre s, _Bool r) {
-#ifdef XV_NT
+static void check_retire(struct pre s, _Bool r, _Bool erase_api) {
   XV_OBL("vhm.erase.retires_only_removed", !reclaim_of_null);
+#ifdef XV_NODE
+  /* the map's own heap node of the removed item: retired exactly once by erase and by extract (whose accessor keeps it alive for the caller) */
   XV_OBL("vhm.erase.retires_only_removed", retire_count == (r ? 1u : 0u));
   if (r) XV_OBL("vhm.erase.retires_only_removed", last_retired == s.k.cell);
-  /* no node that is still linked is retired (part of inv_B), the removed node exactly once */
-  XV_OBL("vhm.erase.retires_only_removed", inv_B(g_B, XV_L));
   if (r) XV_OBL("vhm.erase.retires_only_removed", node_retired[node_index(s.k.cell)] == 1);
 #else
-  XV_OBL("vhm.erase.retires_only_removed", retire_count == 0 && !reclaim_of_null);
+  XV_OBL("vhm.erase.retires_only_removed", retire_count == 0);
 #endif
+#ifdef XV_MANAGED
+  /* the Value object (managed_ptr): erase retires it exactly once, extract hands it to the caller un-retired */
+  XV_OBL("vhm.erase.retires_only_removed", uretire_count == ((r && erase_api) ? 1u : 0u));
+  if (r && erase_api) XV_OBL("vhm.erase.retires_only_removed", last_uretired == s.k.val && uobj_retired[uobj_index(s.k.val)] == 1);
+#else
+  XV_OBL("vhm.erase.retires_only_removed", uretire_count == 0);
+#endif
+  /* nothing that is still linked is retired (part of inv_B) */
+  XV_OBL("vhm.erase.retires_only_removed", inv_B(g_B, XV_L));
 }
 void h_erase(void) {
   build_state(XV_L); in_op = 2;
   struct pre s = snapshot();
   mon_on = 1; _Bool r = vhm_erase(&g_map, in_key); mon_on = 0;
   XV_OBL("vhm.extract.iff_present", r == s.k.found);
-  check_retire(s, r); spec_ignore_retired = 1;
+  check_retire(s, r, 1); spec_ignore_retired = 1;
   if (r) { check_removed(s, 1); XV_CANARY("erase.removed"); }
   else {
     check_unchanged(s); XV_CANARY("erase.absent");
-#ifdef XV_NT
+#ifdef XV_KEYNODE
     if (in_collide) XV_CANARY("erase.absent_collision");
 #endif
   }
@@ -252,18 +285,14 @@ void h_extract(void) {
   struct pre s = snapshot();
   mon_on = 1; _Bool r = vhm_extract(&g_map, in_key, &acc); mon_on = 0;
   XV_OBL("vhm.extract.iff_present", r == s.k.found);
-  check_retire(s, r); spec_ignore_retired = 1;
+  check_retire(s, r, 0); spec_ignore_retired = 1;
   if (r) {
-#ifdef XV_NT
-    /* extract keeps the accessor usable: it still names the removed node, which carries the removed value */
-    XV_OBL("vhm.extract.iff_present", acc.guard == s.k.cell && acc.guard->data.second == s.k.val);
-#else
-    XV_OBL("vhm.extract.iff_present", acc.v == s.k.val);
-#endif
+    /* extract keeps the accessor usable: it still names the removed node / Value object, which carries the removed value */
+    XV_OBL("vhm.extract.iff_present", ACC_NAMES(acc, s.k.cell, s.k.val));
     check_removed(s, 1); XV_CANARY("extract_api.removed");
   } else {
     check_unchanged(s); XV_CANARY("extract_api.absent");
-#ifdef XV_NT
+#ifdef XV_KEYNODE
     if (in_collide) XV_CANARY("extract_api.absent_collision");
 #endif
   }
@@ -287,7 +316,7 @@ static void xv_retry_cut(void) {
   XV_OBL("vhm.emplace.retry_state", mon_state_stores == stores_at_grow);      /* the disabled unlocker does not write the bucket again */
   check_unchanged(g_pre);
   XV_OBL("vhm.emplace.retry_state", factory_calls == 0 && cb_count == 0 && new_count == 0);
-#ifndef XV_NT
+#ifdef XV_MODE_T
   XV_CANARY("emplace.grow_retry");
 #endif
   XV_ASSUME(0);
@@ -303,9 +332,10 @@ void h_emplace(void) {
     check_unchanged(s);
     XV_OBL("vhm.emplace.iff_absent", cb_count == 0);
     /* (each reachable canary costs one satisfiable solver call; the NONTRIVIAL runs keep the ones the TRIVIAL runs cannot show) */
-#ifdef XV_NT
+#ifdef XV_NODE
     if (xv_threw == XV_EXC_std__bad_alloc && !grow_calls && in_ic == NSLOT) XV_CANARY("emplace.new_threw_with_extension_item");
-#else
+#endif
+#ifdef XV_MODE_T
     if (xv_threw == XV_EXC_factory) XV_CANARY("emplace.factory_threw");
     if (xv_threw == XV_EXC_std__bad_alloc && grow_calls) XV_CANARY("emplace.grow_threw");
     if (factory_calls && in_n == 0 && in_ic == NSLOT) XV_CANARY("emplace.threw_with_extension_item");
@@ -325,11 +355,7 @@ void h_emplace(void) {
   if (!r) {
     /* found: get_or_emplace hands out the existing element and changes nothing */
     check_unchanged(s);
-#ifdef XV_NT
-    if (in_acquire) XV_OBL("vhm.emplace.iff_absent", cb_acc.guard == s.k.cell);
-#else
-    if (in_acquire) XV_OBL("vhm.emplace.iff_absent", cb_acc.v == s.k.val);
-#endif
+    if (in_acquire) XV_OBL("vhm.emplace.iff_absent", ACC_NAMES(cb_acc, s.k.cell, s.k.val));
 #ifndef XV_NT
     if (s.k.pos < NSLOT) XV_CANARY("emplace.found_array");
 #endif
@@ -342,10 +368,11 @@ void h_emplace(void) {
   XV_OBL("vhm.emplace.iff_absent", inv_B(g_B, XV_L + 1));
   XV_OBL("vhm.emplace.iff_absent", (int)BS_item_count(g_B->state) + chain_len(g_B, XV_L + 1) == s.size0 + 1);
   XV_OBL("vhm.emplace.iff_absent", cb_cell != 0 && item_val(*cb_cell) == in_value);     /* the callback sees the cell of the new element */
-#ifdef XV_NT
-  if (in_acquire) XV_OBL("vhm.emplace.iff_absent", cb_acc.guard == k1.cell && new_count == 1);
+  if (in_acquire) XV_OBL("vhm.emplace.iff_absent", ACC_NAMES(cb_acc, k1.cell, in_value));
+#ifdef XV_NODE
+  XV_OBL("vhm.emplace.iff_absent", new_count == 1 && k1.cell == NODE_C(NN - 1));      /* exactly one node allocated, and it is the one that was stored */
 #else
-  if (in_acquire) XV_OBL("vhm.emplace.iff_absent", cb_acc.v == in_value);
+  XV_OBL("vhm.emplace.iff_absent", new_count == 0);
 #endif
   {
     int role[POOL]; int taken = 0;
@@ -436,20 +463,8 @@ void xv_env(void) {
   if (env_resize) g_map.resize_lock = nondet_bool();       /* another thread takes / releases the resize lock */
   if (!env_on) return;
   g_B->state = nondet_u32(); g_B->head = POOL_ITEM(nondet_uint());
-  for (int i = 0; i < NSLOT; ++i) { g_B->key[i] = nondet_kcell();
-#ifdef XV_NT
-    g_B->value[i] = node_at(nondet_uint() % NN);
-#else
-    g_B->value[i] = nondet_val();
-#endif
-  }
-  for (int p = 0; p < POOL; ++p) { extension_item* x = POOL_ITEM_C(p); x->key = nondet_kcell(); x->next = POOL_ITEM(nondet_uint());
-#ifdef XV_NT
-    x->value = node_at(nondet_uint() % NN);
-#else
-    x->value = nondet_val();
-#endif
-  }
+  for (int i = 0; i < NSLOT; ++i) { g_B->key[i] = nondet_kcell(); g_B->value[i] = nondet_vcell(); }
+  for (int p = 0; p < POOL; ++p) { extension_item* x = POOL_ITEM_C(p); x->key = nondet_kcell(); x->next = POOL_ITEM(nondet_uint()); x->value = nondet_vcell(); }
 }
 #endif
 void h_get_int(void) {
@@ -461,7 +476,7 @@ void h_get_int(void) {
   _Bool r = vhm_try_get_value_int(&g_map, in_key, &res);
   env_on = 0; rd_on = 0;
   uint64_t keyword =
-#ifdef XV_NT
+#ifdef XV_KEYNODE
     h;
 #else
     in_key;
@@ -469,8 +484,15 @@ void h_get_int(void) {
   if (r) {
     /* the value handed out was loaded from the value cell of an item whose key cell had matched just before ... */
     XV_OBL("vhm.get.validated", rd_val_item >= 0 && rd_key_item == rd_val_item && rd_key_val == keyword && rd_key_clock < rd_val_clock);
-#ifdef XV_NT
-    XV_OBL("vhm.get.validated", res.guard == (struct node*)rd_val && res.guard->data.first == in_key);     /* ... the full key matched (not just the hash) ... */
+#if defined(XV_MN)
+    XV_OBL("vhm.get.validated", res.node_guard == (struct node*)rd_val && NODE_KEY(res.node_guard) == in_key && res.value_guard == NODE_VAL(res.node_guard));
+#elif defined(XV_NODE)
+    XV_OBL("vhm.get.validated", res.guard == (struct node*)rd_val);
+#ifdef XV_KEYNODE
+    XV_OBL("vhm.get.validated", NODE_KEY(res.guard) == in_key);     /* ... the full key matched (not just the hash) ... */
+#endif
+#elif defined(XV_MT)
+    XV_OBL("vhm.get.validated", res.guard == (struct uobj*)rd_val);
 #else
     XV_OBL("vhm.get.validated", res.v == (vval_t)rd_val);
 #endif
@@ -511,20 +533,47 @@ void h_get_seq(void) {
     XV_OBL("vhm.get.seq_lookup", r == s.k.found);
   } else XV_OBL("vhm.get.seq_lookup", !r);           /* the slot being deleted is skipped */
   if (r) {
-#ifdef XV_NT
-    XV_OBL("vhm.get.seq_lookup", res.guard == s.k.cell && res.guard->data.second == s.k.val);
-#else
-    XV_OBL("vhm.get.seq_lookup", res.v == s.k.val);
-#endif
+    XV_OBL("vhm.get.seq_lookup", ACC_NAMES(res, s.k.cell, s.k.val));
     if (s.k.pos < NSLOT) XV_CANARY("get_seq.true_array"); else XV_CANARY("get_seq.true_chain");
   } else {
     XV_OBL("vhm.get.seq_lookup", ACC_EQ(res, res0));
     XV_CANARY("get_seq.false");
-#ifdef XV_NT
+#ifdef XV_KEYNODE
     if (in_collide && in_n > 0) XV_CANARY("get_seq.false_collision_in_chain");
 #endif
   }
   XV_OBL("vhm.ops.frame", g_B->head == s.B0.head && look_eq(lookup(g_B, in_gk), s.g) && pool_ok(role0));    /* a reader writes nothing */
+}
+
+/* ------------------------------------------------------------------ the accessor a user gets (traits::acquire, operator-> / operator*, reset, reclaim) */
+void h_acc(void) {
+  build_state(XV_L);
+  XV_ASSUME(in_ic >= 1);                                   /* slot 0 holds an item */
+  vcell_t cell = g_B->value[0]; vval_t val = item_val(cell);
+  int order = nondet_bool() ? mo_acquire : mo_relaxed;
+  rd_reset(); rd_on = 1;
+  accessor a = TR_acquire(g_B->value[0], order);
+  rd_on = 0;
+  XV_OBL("vhm.acc.names_item", ACC_NAMES(a, cell, val) && rd_val_item == 0 && rd_val_order == order && g_B->value[0] == cell);
+#if defined(XV_NT)
+  XV_OBL("vhm.acc.names_item", nk_acc_arrow(&a) == &NODE_VAL(cell) && nk_acc_deref(&a) == &NODE_VAL(cell) && nk_acc_key(&a) == NODE_KEY(cell));
+#elif defined(XV_TN)
+  XV_OBL("vhm.acc.names_item", tn_acc_arrow(&a) == &NODE_VAL(cell) && tn_acc_deref(&a) == &NODE_VAL(cell));
+#elif defined(XV_MT)
+  XV_OBL("vhm.acc.names_item", mt_acc_arrow(&a) == val);
+#elif defined(XV_MN)
+  XV_OBL("vhm.acc.names_item", mn_acc_arrow(&a) == val && mn_acc_deref(&a) == val && mn_acc_key(&a) == NODE_KEY(cell));
+#endif
+#ifdef XV_MT
+  { accessor b = a; mt_acc_reclaim(&b);                    /* accessor::reclaim(): retires the Value object once, the accessor ends empty */
+    XV_OBL("vhm.acc.names_item", b.guard == 0 && uretire_count == 1 && last_uretired == val && retire_count == 0 && !reclaim_of_null); }
+#endif
+  TR_reset(a);
+#ifndef XV_MODE_T
+  { accessor e = xv_acc_empty(); XV_OBL("vhm.acc.names_item", ACC_EQ(a, e)); }
+#endif
+  XV_OBL("vhm.acc.names_item", g_B->value[0] == cell && item_val(cell) == val && retire_count == 0);     /* looking at an item changes nothing */
+  XV_CANARY("acc.done");
 }
 
 /* ------------------------------------------------------------------ lock_bucket under interference */
@@ -588,7 +637,7 @@ void h_do_grow(void) {
   XV_OBL("vhm.grow.conserves", g_B->state == BS_locked(st0) && g_B->head == s.B0.head && look_eq(lookup(g_B, in_gk), s.g));
   /* an arbitrary key: it is in the new block exactly where a lookup will search it, with the value it had, and nowhere else */
   { hash_t hg =
-#ifdef XV_NT
+#ifdef XV_KEYNODE
       s.g.found ? XV_HASH(in_gk) : nondet_u64();
 #else
       XV_HASH(in_gk);
